@@ -42,7 +42,10 @@ const BYTES: &[u8] = &[b'a', b'%', b',', b':', b'=', b' ', 0x00, 0x80, 0xff, b'/
 fn byte_values(max_len: usize) -> Vec<Vec<u8>> {
     let mut out = vec![];
     let mut v = vec![];
-    for i in 0..enumerate::count_strings(BYTES.len(), max_len) {
+    // index 0 (the empty string) is left out: `key=` without a value is not an address
+    // (libdbus: "'=' character not found or has no value following it"), so a field that is
+    // empty has no string form at all
+    for i in 1..enumerate::count_strings(BYTES.len(), max_len) {
         enumerate::nth_string(BYTES.len(), i, &mut v);
         out.push(v.iter().map(|x| BYTES[*x]).collect());
     }
@@ -346,40 +349,58 @@ fn direction1(report: &Report, tier: Tier) {
     let values = byte_values(tier.pick(2, 3));
     let short = byte_values(1);
     report.set("byte_values", json!(values.len()));
-    let fails: Mutex<FailSet> = Mutex::new(BTreeSet::new());
+    report.note("empty field values are outside the space: `key=` with nothing after it is not an address (libdbus rejects it), so such a value has no string form");
+    let mut fails: FailSet = BTreeSet::new();
     let singles = singles(&values);
+    let results: Mutex<Vec<Option<(String, Back)>>> = Mutex::new(vec![None; singles.len()]);
     par_for(singles.len(), 64, |i| {
-        let (d, key, val) = &singles[i];
-        let (text, back) = round_trip(d);
+        let r = round_trip(&singles[i].0);
+        results.lock().unwrap()[i] = Some(r);
+    });
+    let results = results.into_inner().unwrap();
+    let mut bind_unjudged = false;
+    for (i, ((d, key, val), r)) in singles.iter().zip(results).enumerate() {
+        let (text, back) = r.unwrap_or_else(|| machinery_failure("C23: missing result"));
         report.eval(1);
         report.nontrivial(hash64(&("rt", d)));
+        if *key == "bind" && matches!(&back, Back::Error(e) if e.contains("`bind` isn't yet supported")) {
+            // Tcp::set_bind and Display exist, the parser refuses the key with an explicit
+            // "not yet supported": a documented restriction, recorded and not judged
+            report.outcome("format-then-parse: tcp bind= refused by the parser as 'not yet supported' (not judged)");
+            bind_unjudged = true;
+            continue;
+        }
         report.outcome(&format!("format-then-parse: {}", back.class()));
         if i % (singles.len() / 6 + 1) == 3 {
             report.sample(json!({"address": d.to_json(), "display": text, "read_back": back.class()}));
         }
         if back != Back::Same {
-            fails
-                .lock()
-                .unwrap()
-                .insert((d.transport_name().to_string(), key.to_string(), class_of(val).to_string()));
+            fails.insert((d.transport_name().to_string(), key.to_string(), class_of(val).to_string()));
             report.violation(violation_rt(d, key, val, &text, &back, "single-field"));
         }
-    });
-    let fails = fails.into_inner().unwrap();
+    }
     report.set(
         "format_then_parse_failing_field_classes",
         json!(fails.iter().map(|(t, k, c)| format!("{t}:{k}:{c}")).collect::<Vec<_>>()),
     );
     let prods = products(&short);
     report.set("presence_products", json!(prods.len()));
+    let results: Mutex<Vec<Option<(String, Back)>>> = Mutex::new(vec![None; prods.len()]);
     par_for(prods.len(), 64, |i| {
-        let d = &prods[i];
-        let (text, back) = round_trip(d);
+        let r = round_trip(&prods[i]);
+        results.lock().unwrap()[i] = Some(r);
+    });
+    for (d, r) in prods.iter().zip(results.into_inner().unwrap()) {
+        let (text, back) = r.unwrap_or_else(|| machinery_failure("C23: missing result"));
         report.eval(1);
         report.nontrivial(hash64(&("rt", d)));
+        if bind_unjudged && matches!(&d.t, TDesc::Tcp { bind: Some(_), .. }) && matches!(&back, Back::Error(e) if e.contains("`bind` isn't yet supported")) {
+            report.outcome("format-then-parse: tcp bind= refused by the parser as 'not yet supported' (not judged)");
+            continue;
+        }
         report.outcome(&format!("format-then-parse: {}", back.class()));
         if back == Back::Same {
-            return;
+            continue;
         }
         let explained = d
             .fields()
@@ -387,11 +408,11 @@ fn direction1(report: &Report, tier: Tier) {
             .any(|(k, v)| fails.contains(&(d.transport_name().to_string(), k.to_string(), class_of(v).to_string())));
         if explained {
             report.add("product_failures_explained_by_single_field_findings", 1);
-            return;
+            continue;
         }
         let keys: Vec<&str> = d.fields().iter().map(|(k, _)| *k).collect();
         report.violation(violation_rt(d, &keys.join("+"), b"a", &text, &back, "field-interaction"));
-    });
+    }
 }
 
 // ---------------------------------------------------------------------------------------------
@@ -474,10 +495,18 @@ fn key_family(k: &str) -> &str {
     }
 }
 
+enum Parsed {
+    Rejected,
+    Panic(String),
+    /// value zbus reports per key under test
+    Values(Vec<Option<Vec<u8>>>),
+}
+
 fn direction2(report: &Report, tier: Tier, lib: Option<&ffi::Lib>) {
     let strings = address_strings(tier);
     report.set("address_strings", json!(strings.len()));
     let audited = std::sync::atomic::AtomicU64::new(0);
+    let results: Mutex<Vec<Option<Parsed>>> = Mutex::new((0..strings.len()).map(|_| None).collect());
     par_for(strings.len(), 64, |i| {
         let (s, keys) = &strings[i];
         let want = refaddr::parse_entry(s)
@@ -502,32 +531,40 @@ fn direction2(report: &Report, tier: Tier, lib: Option<&ffi::Lib>) {
                 }
             }
         }
+        let r = match catch(|| Address::from_str(s)) {
+            Ok(Ok(a)) => Parsed::Values(keys.iter().map(|k| zbus_value(&a, k)).collect()),
+            Ok(Err(_)) => Parsed::Rejected,
+            Err(p) => Parsed::Panic(p),
+        };
+        results.lock().unwrap()[i] = Some(r);
+    });
+    for (i, ((s, keys), r)) in strings.iter().zip(results.into_inner().unwrap()).enumerate() {
         report.eval(1);
-        let got = match catch(|| Address::from_str(s)) {
-            Ok(Ok(a)) => a,
-            Ok(Err(_)) => {
+        let want = refaddr::parse_entry(s).unwrap_or_else(|e| machinery_failure(&e));
+        let got = match r.unwrap_or_else(|| machinery_failure("C23: missing result")) {
+            Parsed::Values(v) => v,
+            Parsed::Rejected => {
                 report.outcome("parse-string: valid address string rejected by zbus (not judged)");
-                return;
+                continue;
             }
-            Err(p) => {
+            Parsed::Panic(p) => {
                 report.outcome("parse-string: panic");
                 report.violation(
                     Violation::new(CLAUSE, format!("Address::from_str({s:?}) panics: {p}"), json!({"string": s}))
                         .feat("direction", "parse-string")
                         .feat("outcome", "panic"),
                 );
-                return;
+                continue;
             }
         };
         report.nontrivial(hash64(&("str", s)));
         let mut all_ok = true;
-        for k in keys {
+        for (k, g) in keys.iter().zip(&got) {
             let w = want.get(k).unwrap_or(&[]);
             if *k == "host" && std::str::from_utf8(w).is_err() {
                 report.outcome("parse-string: decoded host is not UTF-8 (not judged)");
                 continue;
             }
-            let g = zbus_value(&got, k);
             if g.as_deref() == Some(w) {
                 continue;
             }
@@ -564,12 +601,37 @@ fn direction2(report: &Report, tier: Tier, lib: Option<&ffi::Lib>) {
         });
         if i % (strings.len() / 5 + 1) == 11 {
             report.sample(json!({"string": s, "keys": keys, "decoded": keys.iter().map(|k| want.get(k).map(|v| String::from_utf8_lossy(v).into_owned())).collect::<Vec<_>>(),
-                "zbus": keys.iter().map(|k| zbus_value(&got, k).map(|v| String::from_utf8_lossy(&v).into_owned())).collect::<Vec<_>>()}));
+                "zbus": got.iter().map(|v| v.as_ref().map(|v| String::from_utf8_lossy(v).into_owned())).collect::<Vec<_>>()}));
         }
-    });
-    if lib.is_some() {
-        report.set("audit_refaddr_vs_libdbus_strings", json!(audited.into_inner()));
-        report.assume("refaddr percent-decoding agrees with libdbus dbus_parse_address on every enumerated string without %00");
+    }
+    if let Some(lib) = lib {
+        // accept/reject agreement on near-miss strings (unescaped reserved bytes, truncated escapes, empty values)
+        let atoms = ["a", "/", "%41", "%2c", " ", "%", "%4", "%zz", ",", "=", ":", ";", "%00"];
+        let mut v = vec![];
+        let (mut acc, mut rej) = (0u64, 0u64);
+        for i in 0..enumerate::count_strings(atoms.len(), 3) {
+            enumerate::nth_string(atoms.len(), i, &mut v);
+            let val: String = v.iter().map(|x| atoms[*x]).collect();
+            if val.contains(';') {
+                continue; // entry separator: a list, not a single entry
+            }
+            let s = format!("unix:path={val}");
+            let ours = refaddr::parse_entry(&s).is_ok();
+            let theirs = refaddr::libdbus_parse(lib, &s, &["path"]).is_ok();
+            if ours != theirs {
+                machinery_failure(&format!("C23 audit: refaddr accepts={ours}, libdbus accepts={theirs} for {s:?}"));
+            }
+            if ours {
+                acc += 1
+            } else {
+                rej += 1
+            }
+        }
+        report.set(
+            "audit_refaddr_vs_libdbus",
+            json!({"valid_strings_values_compared": audited.into_inner(), "near_miss_strings_accept_reject_compared": acc + rej, "accepted_by_both": acc, "rejected_by_both": rej}),
+        );
+        report.assume("refaddr (grammar and percent-decoding) agrees with libdbus dbus_parse_address on every enumerated string without %00 and on the near-miss strings");
     }
 }
 
